@@ -167,6 +167,10 @@ ContractOK ==
       => TakenOK(D, PO, QO, VecOf(D, Ev.t, Ev.n), Ev.ch))
   /\ (Ev.o = "get" => ReplyExact(D, PO, QO, Ev.t, Ev.n))
   /\ (Ev.o \in {"assign", "setvalue"} /\ NoReadOn(Ev.v) => WriteContractObs(Ev.v, Ev.e, Ev.x, Ev.o = "setvalue"))
+  \* a client write of one convertible member is a set_value on that element
+  /\ (Ev.o = "new" /\ Ev.t # None /\ VecOf(D, Ev.t, Ev.n) # 0 /\ Len(Ev.ch) = 1 /\ KindOK(VecOf(D, Ev.t, Ev.n), Ev.ch)
+        /\ NoReadOn(VecOf(D, Ev.t, Ev.n))
+      => WriteContractObs(VecOf(D, Ev.t, Ev.n), IndexOf(D.vecs[VecOf(D, Ev.t, Ev.n)].elems, Ev.ch[1][1]), Ev.ch[1][2], TRUE))
   \* what no property allows to change silently: an operation that is not a write / toggle leaves values and states alone
   /\ (Ev.o \in {"get", "read", "tick"} /\ (\A h \in DOMAIN D.hs : D.hs[h].refresh = NoRefresh) => QO.val = PO.val /\ QO.vst = PO.vst /\ QO.ven = PO.ven)
 
